@@ -3827,26 +3827,368 @@ theorem WF2.step_publish {st : St} (h : WF2 st) (tn : String) (tick : Int) (ms :
         injection hp with hp; subst hp
         exact WF2.publishLoop t tick htick ms st.db st.now [] db' wakes h hl
 
-/-- the fragment with dead-letter policies: clock advances, topic creation, subscription creation with
-    *any* configuration (dead-letter policies, ordering, filters), publishes — single and batched, the
-    clock may stand still between messages and between operations —, pulls, nacks, deadline changes,
-    acknowledgements of handed-out deliveries and the dead-letter sweep.  (Deletions, expiry, snapshots
-    and the prune jobs are in the fragment of `C05_fragment`, which has no dead-letter policies; seeks
-    are in neither.) -/
-def fragOkDL (st : St) : Op → Prop
-  | .advance d => 0 ≤ d
-  | .createTopic _ _ _ => True
-  | .createSub _ _ => True
-  | .publish _ tick _ => 0 ≤ tick
-  | .pull _ _ _ _ wait _ => 0 ≤ wait
-  | .ack ids => ∀ d ∈ st.db.dels, ids.contains d.id = true → 0 < d.attempts
-  | .nack _ _ _ => True
-  | .delay _ _ => True
-  | .dlSweep _ _ _ => True
-  | _ => False
+/-! #### the remaining operations: deletions, expiry, snapshots, the delay injector and the prune jobs -/
 
-instance (st : St) (op : Op) : Decidable (fragOkDL st op) := by
-  cases op <;> unfold fragOkDL <;> infer_instance
+/-- an operation that commits a result leaving deliveries, subscriptions and messages alone -/
+theorem WF2.finish_same {α} {st : St} (h : WF2 st) (r : Except Err (TxOut α)) (render : α → String)
+    (hsame : ∀ o, r = .ok o → o.db.dels = st.db.dels ∧ o.db.subs = st.db.subs ∧ o.db.msgs = st.db.msgs) :
+    WF2 (finish st r render).1 := by
+  cases r with
+  | error e => exact h
+  | ok o =>
+    obtain ⟨h1, h2, h3⟩ := hsame o rfl
+    simp only [finish]
+    exact h.of_tables h1 h2 h3 (Int.le_refl _)
+
+theorem WF2.step_deleteTopic {st : St} (h : WF2 st) (n : String) : WF2 (Mmmbbb.step st (.deleteTopic n)).1 := by
+  simp only [Mmmbbb.step]
+  apply h.finish_same
+  intro o ho
+  unfold deleteTopic at ho
+  simp only at ho
+  split at ho
+  · cases ho
+  · injection ho with ho; subst ho; exact ⟨rfl, rfl, rfl⟩
+
+theorem WF2.step_deleteSnap {st : St} (h : WF2 st) (n : String) : WF2 (Mmmbbb.step st (.deleteSnap n)).1 := by
+  simp only [Mmmbbb.step]
+  apply h.finish_same
+  intro o ho
+  unfold deleteSnapshot at ho
+  split at ho
+  · cases ho
+  · injection ho with ho; subst ho; exact ⟨rfl, rfl, rfl⟩
+
+theorem WF2.step_snapshot {st : St} (h : WF2 st) (n s : String) (l : StrMap) (i : Id) :
+    WF2 (Mmmbbb.step st (.snapshot n s l i)).1 := by
+  simp only [Mmmbbb.step]
+  apply h.finish_same
+  intro o ho
+  exact ⟨createSnapshot_dels ho, by
+    unfold createSnapshot at ho
+    split at ho
+    · cases ho
+    · split at ho
+      · cases ho
+      · split at ho
+        · cases ho
+        · injection ho with ho; subst ho; exact ⟨rfl, rfl⟩⟩
+
+/-- a step that only rewrites subscriptions: identity kept; whatever is live afterwards was live before
+    with the same ordering flag and retention -/
+theorem WF2.of_subs_kill {st st' : St} (h : WF2 st) (gs : Sub → Sub)
+    (hd : st'.db.dels = st.db.dels) (hs : st'.db.subs = st.db.subs.map gs) (hm : st'.db.msgs = st.db.msgs)
+    (hnow : st'.now = st.now)
+    (hgs : ∀ s, (gs s).id = s.id ∧
+      ((gs s).live = true → s.live = true ∧ (gs s).ordered = s.ordered ∧ (gs s).messageTtl = s.messageTtl)) :
+    WF2 st' := by
+  have hok : stepOk2 st.db st.now st'.db st'.now = true := by
+    unfold stepOk2
+    simp only [Bool.and_eq_true, decide_eq_true_eq, Bool.or_eq_true]
+    refine ⟨⟨by rw [hnow]; exact Int.le_refl _, subsOk_of_kill st.db st'.db gs hs (fun s _ => hgs s)⟩, Or.inl ?_⟩
+    unfold growOk2
+    rw [hd]
+    simp only [List.take_length, List.drop_length, Bool.and_eq_true]
+    exact ⟨rowsUpdOk_refl st.db st.now st'.db hm st.db.dels, rfl⟩
+  refine ⟨h.inv.step hok, ?_, fk_subs_map gs hd hm hs (fun x => (hgs x).1) h.fk⟩
+  rw [hs]; exact uqA_subs_map gs (fun x => (hgs x).1) h.uqA
+
+theorem kill_fields2 (p : Sub → Bool) (now : Time) (s : Sub) :
+    (if p s = true then { s with deletedAt := some now } else s).id = s.id ∧
+    ((if p s = true then { s with deletedAt := some now } else s).live = true →
+      s.live = true ∧ (if p s = true then { s with deletedAt := some now } else s).ordered = s.ordered ∧
+      (if p s = true then { s with deletedAt := some now } else s).messageTtl = s.messageTtl) := by
+  obtain ⟨a, _, c⟩ := kill_fields p now s
+  exact ⟨a, c⟩
+
+theorem WF2.step_deleteSub {st : St} (h : WF2 st) (n : String) : WF2 (Mmmbbb.step st (.deleteSub n)).1 := by
+  simp only [Mmmbbb.step]
+  cases hc : deleteSub st.db st.now n with
+  | error e => simp only [finish]; exact h
+  | ok o =>
+    simp only [finish]
+    unfold deleteSub at hc
+    simp only at hc
+    split at hc
+    · cases hc
+    · injection hc with hc; subst hc
+      exact h.of_subs_kill (fun s => if (s.name == n && s.live) = true then { s with deletedAt := some st.now } else s)
+        rfl rfl rfl rfl (fun s => kill_fields2 (fun s => s.name == n && s.live) st.now s)
+
+theorem WF2.step_expireSubs {st : St} (h : WF2 st) (mx : Nat) (v : List Id) : WF2 (Mmmbbb.step st (.expireSubs mx v)).1 := by
+  simp only [Mmmbbb.step]
+  cases hc : expireSubs st.db st.now mx v with
+  | error e => simp only [finish]; exact h
+  | ok o =>
+    simp only [finish]
+    unfold expireSubs at hc
+    simp only at hc
+    split at hc
+    · cases hc
+    · injection hc with hc; subst hc
+      exact h.of_subs_kill (fun s => if (v.contains s.id) = true then { s with deletedAt := some st.now } else s)
+        rfl rfl rfl rfl (fun s => kill_fields2 (fun s => v.contains s.id) st.now s)
+
+theorem WF2.step_setDelay {st : St} (h : WF2 st) (n : String) (dl : Int) : WF2 (Mmmbbb.step st (.setDelay n dl)).1 := by
+  simp only [Mmmbbb.step]
+  cases hc : setDelay st.db n dl with
+  | error e => simp only [finish]; exact h
+  | ok o =>
+    simp only [finish]
+    unfold setDelay at hc
+    simp only at hc
+    split at hc
+    · cases hc
+    · injection hc with hc; subst hc
+      refine h.of_subs_kill (fun s => if (s.name == n && s.live) = true then { s with deliveryDelay := dl } else s)
+        rfl rfl rfl rfl (fun s => ?_)
+      by_cases hp : (s.name == n && s.live) = true
+      · rw [if_pos hp]; exact ⟨rfl, fun hl => ⟨hl, rfl, rfl⟩⟩
+      · rw [if_neg hp]; exact ⟨rfl, fun hl => ⟨hl, rfl, rfl⟩⟩
+
+theorem WF2.step_pruneDeletedTopics {st : St} (h : WF2 st) (a : Int) (mx : Nat) (v : List Id) :
+    WF2 (Mmmbbb.step st (.pruneDeletedTopics a mx v)).1 := by
+  simp only [Mmmbbb.step]
+  unfold pruneDeletedTopics
+  simp only
+  split
+  · simp only [finish]; exact h
+  · split
+    · simp only [finish]; exact h
+    · simp only [finish]
+      refine h.of_subs_kill (fun s => match s.dlTopicId with
+          | some d => if v.contains d = true then { s with dlTopicId := none } else s
+          | none => s) rfl rfl rfl rfl (fun s => ?_)
+      split
+      · rename_i t hdl
+        by_cases hc : v.contains t = true
+        · rw [if_pos hc]; exact ⟨rfl, fun hl => ⟨hl, rfl, rfl⟩⟩
+        · rw [if_neg hc]; exact ⟨rfl, fun hl => ⟨hl, rfl, rfl⟩⟩
+      · exact ⟨rfl, fun hl => ⟨hl, rfl, rfl⟩⟩
+
+theorem WF2.step_pruneCompletedMessages {st : St} (h : WF2 st) (a : Int) (mx : Nat) (v : List Id) :
+    WF2 (Mmmbbb.step st (.pruneCompletedMessages a mx v)).1 := by
+  simp only [Mmmbbb.step]
+  unfold pruneCompletedMessages
+  simp only
+  split
+  · simp only [finish]; exact h
+  · rename_i hlim
+    simp only [finish]
+    have hlim' := by simpa using hlim
+    have hv := limitOk_victims hlim'
+    -- no delivery refers to a removed message
+    have hkeep : ∀ d ∈ st.db.dels, ∀ m ∈ st.db.msgs, m.id = d.msgId → (!v.contains m.id) = true := by
+      intro d hd m _ hid
+      cases hc : v.contains m.id with
+      | false => rfl
+      | true =>
+        exfalso
+        obtain ⟨r, hr, hp⟩ := hv m.id (List.contains_iff_mem.mp hc)
+        obtain ⟨_, hrid⟩ := msgById_mem hr
+        simp only [Bool.and_eq_true, Bool.not_eq_true', decide_eq_true_eq] at hp
+        have := hp.2
+        rw [List.any_eq_false] at this
+        exact this d hd (by simp [hrid, hid])
+    have hmsg : ∀ d ∈ st.db.dels,
+        ({ st.db with msgs := st.db.msgs.filter fun m => !v.contains m.id } : Db).msgById d.msgId = st.db.msgById d.msgId := by
+      intro d hd
+      unfold Db.msgById
+      exact find?_filter_keep st.db.msgs _ _ (fun m hm hq => hkeep d hd m hm (by simpa using hq))
+    have hk : ∀ d ∈ st.db.dels, keyOf ({ st.db with msgs := st.db.msgs.filter fun m => !v.contains m.id } : Db) d = keyOf st.db d := by
+      intro d hd
+      unfold keyOf
+      rw [hmsg d hd]
+    have hok : stepOk2 st.db st.now ({ st.db with msgs := st.db.msgs.filter fun m => !v.contains m.id } : Db) st.now = true :=
+      stepOk2_of_append st.db st.now _ st.now [] (Int.le_refl _) (List.append_nil _).symm rfl hk rfl
+    refine ⟨h.inv.step hok, h.uqA, ?_⟩
+    intro d hd
+    obtain ⟨h1, h2⟩ := h.fk d hd
+    exact ⟨by rw [hmsg d hd]; exact h1, h2⟩
+
+theorem WF2.step_pruneDeletedSubs {st : St} (h : WF2 st) (a : Int) (mx : Nat) (v : List Id) :
+    WF2 (Mmmbbb.step st (.pruneDeletedSubs a mx v)).1 := by
+  simp only [Mmmbbb.step]
+  unfold pruneDeletedSubs
+  simp only
+  split
+  · simp only [finish]; exact h
+  · rename_i hlim
+    simp only [finish]
+    have hlim' := by simpa using hlim
+    have hv := limitOk_victims hlim'
+    have hkeep : ∀ d ∈ st.db.dels, ∀ s ∈ st.db.subs, s.id = d.subId → (!v.contains s.id) = true := by
+      intro d hd s _ hid
+      cases hc : v.contains s.id with
+      | false => rfl
+      | true =>
+        exfalso
+        obtain ⟨r, hr, hp⟩ := hv s.id (List.contains_iff_mem.mp hc)
+        obtain ⟨_, hrid⟩ := subById_mem hr
+        simp only [Bool.and_eq_true, Bool.not_eq_true'] at hp
+        have := hp.2
+        rw [List.any_eq_false] at this
+        exact this d hd (by simp [hrid, hid])
+    have hok : stepOk2 st.db st.now ({ st.db with subs := st.db.subs.filter fun s => !v.contains s.id } : Db) st.now = true := by
+      unfold stepOk2
+      simp only [Bool.and_eq_true, decide_eq_true_eq, Bool.or_eq_true]
+      refine ⟨⟨Int.le_refl _, ?_⟩, Or.inl ?_⟩
+      · unfold subsOk
+        apply List.all_eq_true.mpr
+        intro s' hs'
+        have hs0 : s' ∈ st.db.subs := (List.mem_filter.mp hs').1
+        cases hl : s'.live with
+        | false => simp
+        | true =>
+          simp only [Bool.not_true, Bool.false_or, Bool.or_eq_true, List.any_eq_true, Bool.and_eq_true, beq_iff_eq]
+          left
+          exact ⟨s', hs0, ⟨⟨⟨hl, rfl⟩, rfl⟩, rfl⟩⟩
+      · unfold growOk2
+        simp only [List.take_length, List.drop_length, Bool.and_eq_true]
+        exact ⟨rowsUpdOk_refl st.db st.now ({ st.db with subs := st.db.subs.filter fun s => !v.contains s.id } : Db) rfl st.db.dels, rfl⟩
+    refine ⟨h.inv.step hok, ?_, ?_⟩
+    · intro x hx y hy hid
+      exact h.uqA x (List.mem_filter.mp hx).1 y (List.mem_filter.mp hy).1 hid
+    · intro d hd
+      obtain ⟨h1, s0, hs0, hid⟩ := h.fk d hd
+      exact ⟨h1, s0, List.mem_filter.mpr ⟨hs0, hkeep d hd s0 hs0 hid⟩, hid⟩
+
+/-- on ids of the table, "removed" means "named by the job" -/
+theorem tieClosed_of_victims (db : Db) (v : List Id) (h : tieClosed db v = true) :
+    tieClosed db (removedIds db.dels (deleteDeliveries db v).dels) = true := by
+  have hR : ∀ d ∈ db.dels, (removedIds db.dels (deleteDeliveries db v).dels).contains d.id = v.contains d.id :=
+    fun d hd => removedIds_deleteDeliveries db v d.id (List.mem_map.mpr ⟨d, hd, rfl⟩)
+  unfold tieClosed at h ⊢
+  rw [List.all_eq_true] at h ⊢
+  intro g hg
+  have hgv := h g hg
+  rw [hR g hg]
+  simp only [Bool.or_eq_true, List.all_eq_true] at hgv ⊢
+  rcases hgv with h1 | h1
+  · exact Or.inl h1
+  · right
+    intro e he
+    rw [hR e he]
+    exact h1 e he
+
+/-- deleting delivery rows keeps referential integrity and unique ids; with the refinement obligation
+    it keeps the ordering invariant -/
+theorem WF2.of_deleteDeliveries {st : St} (h : WF2 st) (victims : List Id)
+    (hok : stepOk2 st.db st.now (deleteDeliveries st.db victims) st.now = true) :
+    WF2 { st with db := deleteDeliveries st.db victims } := by
+  refine ⟨h.inv.step hok, h.uqA, ?_⟩
+  intro d hd
+  have hd' : d ∈ (deleteDeliveries st.db victims).dels := hd
+  rw [deleteDeliveries_dels] at hd'
+  obtain ⟨d0, hd0, rfl⟩ := List.mem_map.mp hd'
+  have hf : (clrV victims d0).msgId = d0.msgId ∧ (clrV victims d0).subId = d0.subId := by
+    unfold clrV; split <;> (try split) <;> exact ⟨rfl, rfl⟩
+  exact (h.fk d0 (List.mem_filter.mp hd0).1).congr rfl rfl hf.1 hf.2
+
+theorem stepOk2_of_shrink (db : Db) (now : Time) (v : List Id)
+    (hs : shrinkOk db now (deleteDeliveries db v) = true) (ht : tieClosed db v = true) :
+    stepOk2 db now (deleteDeliveries db v) now = true := by
+  unfold stepOk2
+  simp only [Bool.and_eq_true, decide_eq_true_eq, Bool.or_eq_true]
+  refine ⟨⟨Int.le_refl _, subsOk_same db _ rfl⟩, Or.inr ?_⟩
+  unfold shrinkOk2
+  simp only [Bool.and_eq_true]
+  exact ⟨hs, tieClosed_of_victims db v ht⟩
+
+theorem WF2.step_pruneCompletedDeliveries {st : St} (h : WF2 st) (a : Int) (mx : Nat) (v : List Id)
+    (ht : tieClosed st.db v = true) : WF2 (Mmmbbb.step st (.pruneCompletedDeliveries a mx v)).1 := by
+  simp only [Mmmbbb.step]
+  unfold pruneCompletedDeliveries
+  simp only
+  split
+  · simp only [finish]; exact h
+  · rename_i hlim
+    simp only [finish]
+    have hlim' := by simpa using hlim
+    have hv := limitOk_victims hlim'
+    refine h.of_deleteDeliveries v (stepOk2_of_shrink st.db st.now v (shrinkOk_deleteDeliveries st.db st.now v ?_ ?_) ht)
+    · intro x hx
+      obtain ⟨r, hr, _⟩ := hv x hx
+      obtain ⟨hm, hid⟩ := delById_mem hr
+      exact List.mem_map.mpr ⟨r, hm, hid⟩
+    · intro d hd hc
+      obtain ⟨r, hr, hp⟩ := hv d.id (List.contains_iff_mem.mp hc)
+      obtain ⟨hm, hid⟩ := delById_mem hr
+      have : r = d := eq_of_nodup_ids h.inv.uniq hm hd hid
+      subst this
+      refine Or.inl ((isOpen_false_iff st.now r).mpr (Or.inl ?_))
+      cases hcc : r.completedAt with
+      | none => rw [hcc] at hp; cases hp
+      | some c => rfl
+
+theorem WF2.step_pruneExpiredDeliveries {st : St} (h : WF2 st) (mx : Nat) (v : List Id)
+    (ht : tieClosed st.db v = true) : WF2 (Mmmbbb.step st (.pruneExpiredDeliveries mx v)).1 := by
+  simp only [Mmmbbb.step]
+  unfold pruneExpiredDeliveries
+  simp only
+  split
+  · simp only [finish]; exact h
+  · rename_i hlim
+    simp only [finish]
+    have hlim' := by simpa using hlim
+    have hv := limitOk_victims hlim'
+    refine h.of_deleteDeliveries v (stepOk2_of_shrink st.db st.now v (shrinkOk_deleteDeliveries st.db st.now v ?_ ?_) ht)
+    · intro x hx
+      obtain ⟨r, hr, _⟩ := hv x hx
+      obtain ⟨hm, hid⟩ := delById_mem hr
+      exact List.mem_map.mpr ⟨r, hm, hid⟩
+    · intro d hd hc
+      obtain ⟨r, hr, hp⟩ := hv d.id (List.contains_iff_mem.mp hc)
+      obtain ⟨hm, hid⟩ := delById_mem hr
+      have : r = d := eq_of_nodup_ids h.inv.uniq hm hd hid
+      subst this
+      refine Or.inl ((isOpen_false_iff st.now r).mpr (Or.inr ?_))
+      have : r.expiresAt < st.now := by simpa using hp
+      exact Int.le_of_lt this
+
+theorem WF2.step_pruneDeletedSubDeliveries {st : St} (h : WF2 st) (a : Int) (mx : Nat) (v : List Id)
+    (ht : tieClosed st.db v = true) : WF2 (Mmmbbb.step st (.pruneDeletedSubDeliveries a mx v)).1 := by
+  simp only [Mmmbbb.step]
+  unfold pruneDeletedSubDeliveries
+  simp only
+  split
+  · simp only [finish]; exact h
+  · rename_i hlim
+    simp only [finish]
+    have hlim' := by simpa using hlim
+    have hv := limitOk_victims hlim'
+    refine h.of_deleteDeliveries v (stepOk2_of_shrink st.db st.now v (shrinkOk_deleteDeliveries st.db st.now v ?_ ?_) ht)
+    · intro x hx
+      obtain ⟨r, hr, _⟩ := hv x hx
+      obtain ⟨hm, hid⟩ := delById_mem hr
+      exact List.mem_map.mpr ⟨r, hm, hid⟩
+    · intro d hd hc
+      obtain ⟨r, hr, hp⟩ := hv d.id (List.contains_iff_mem.mp hc)
+      obtain ⟨hm, hid⟩ := delById_mem hr
+      have : r = d := eq_of_nodup_ids h.inv.uniq hm hd hid
+      subst this
+      right
+      cases hlo : liveOrd st.db r.subId with
+      | false => rfl
+      | true =>
+        exfalso
+        unfold liveOrd at hlo
+        obtain ⟨s, hs, hs2⟩ := List.any_eq_true.mp hlo
+        simp only [Bool.and_eq_true, beq_iff_eq] at hs2
+        cases hsb : st.db.subById r.subId with
+        | none => rw [hsb] at hp; simp at hp
+        | some s0 =>
+          obtain ⟨hs0, hid0⟩ := subById_mem hsb
+          have : s0 = s := h.uqA s0 hs0 s hs (by rw [hid0, hs2.1.1])
+          subst this
+          have hl : s0.deletedAt = none := by
+            have := hs2.1.2
+            unfold Sub.live at this
+            cases hda : s0.deletedAt with
+            | none => rfl
+            | some _ => rw [hda] at this; cases this
+          rw [hsb] at hp
+          simp [hl] at hp
 
 def fragRunDL : St → List Op → Prop
   | _, [] => True
@@ -3856,14 +4198,27 @@ theorem WF2.step {st : St} (h : WF2 st) (op : Op) (hf : fragOkDL st op) : WF2 (M
   cases op with
   | advance d => exact h.step_advance d hf
   | createTopic n l i => exact h.step_createTopic n l i
+  | deleteTopic n => exact h.step_deleteTopic n
   | createSub p i => exact h.step_createSub p i
+  | deleteSub n => exact h.step_deleteSub n
+  | expireSubs mx v => exact h.step_expireSubs mx v
+  | snapshot n s l i => exact h.step_snapshot n s l i
+  | deleteSnap n => exact h.step_deleteSnap n
+  | setDelay n d => exact h.step_setDelay n d
   | publish t tick ms => exact h.step_publish t tick ms hf
   | pull sn mx mb strict wait obs => exact h.step_pull sn mx mb strict wait obs hf
   | ack ids => exact h.step_ack ids hf
   | nack ids ds fw => exact h.step_nack ids ds fw
   | delay ids d => exact h.step_delay ids d
   | dlSweep mx v fw => exact h.step_dlSweep mx v fw
-  | _ => exact absurd hf (by simp [fragOkDL])
+  | pruneCompletedDeliveries a mx v => exact h.step_pruneCompletedDeliveries a mx v hf
+  | pruneExpiredDeliveries mx v => exact h.step_pruneExpiredDeliveries mx v hf
+  | pruneDeletedSubDeliveries a mx v => exact h.step_pruneDeletedSubDeliveries a mx v hf
+  | pruneCompletedMessages a mx v => exact h.step_pruneCompletedMessages a mx v
+  | pruneDeletedSubs a mx v => exact h.step_pruneDeletedSubs a mx v
+  | pruneDeletedTopics a mx v => exact h.step_pruneDeletedTopics a mx v
+  | seekTime sn t => exact absurd hf (by simp [fragOkDL])
+  | seekSnap sn n => exact absurd hf (by simp [fragOkDL])
 
 theorem WF2.run : ∀ (ops : List Op) (st : St), WF2 st → fragRunDL st ops → WF2 (Mmmbbb.run st ops)
   | [], _, h, _ => h
@@ -3871,16 +4226,20 @@ theorem WF2.run : ∀ (ops : List Op) (st : St), WF2 st → fragRunDL st ops →
     rw [run_cons]
     exact WF2.run r _ (h.step op hf.1) hf.2
 
-/-- **C05 with dead-letter policies, outright**: for *every* history of clock advances (by any amount,
-    zero included), topic creations, subscription creations with any configuration — dead-letter policies
-    into ordered subscriptions, chains of them, filters —, publishes (single and batched; the clock need
-    not move between messages), pulls of any size (which dead-letter the candidates whose attempts are
-    used up and lease the others), nacks, deadline changes, acknowledgements of handed-out deliveries and
-    dead-letter sweeps of any batch size: in the state it reaches no keyed delivery of an ordered
-    subscription is eligible while an earlier-published delivery of the same key is outstanding.
-    No clock assumption and no hypothesis evaluated on the run: deliveries forwarded in one transaction
-    share their publish time, and the second sort key of the predecessor query (652c205, regenerated from
-    the source on every run) is what the proof of the enqueueing step uses. -/
+/-- **C05 outright, for every history without a Seek**: clock advances (by any amount, zero included),
+    topic creations and deletions, subscription creations with any configuration — dead-letter policies
+    into ordered subscriptions, chains of them, filters —, deletions and expiries, snapshots, the delay
+    injector, publishes (single and batched; the clock need not move between messages), pulls of any
+    size (which dead-letter the candidates whose attempts are used up and lease the others), nacks,
+    deadline changes, acknowledgements of handed-out deliveries, dead-letter sweeps of any batch size and
+    all six prune jobs (the three that delete delivery rows: tie-closed rounds, see `fragOkDL`): in the
+    state such a history reaches no keyed delivery of an ordered subscription is eligible while an
+    earlier-published delivery of the same key is outstanding.
+    No clock assumption and no refinement hypothesis evaluated on the run: deliveries forwarded in one
+    transaction share their publish time, and the second sort key of the predecessor query (652c205,
+    regenerated from the source on every run) is what the proof of the enqueueing step uses.  What is
+    outside: the two seeks (the recorded findings) and a change of the retention (not an operation of
+    this state machine). -/
 theorem C05_fragment_dl (ops : List Op) (h : fragRunDL {} ops) :
     let st := Mmmbbb.run {} ops
     ∀ s ∈ st.db.subs, s.live = true → s.ordered = true → ∀ d ∈ st.db.dels, ∀ e ∈ st.db.dels,
@@ -3899,6 +4258,17 @@ theorem C05_fragment_dl (ops : List Op) (h : fragRunDL {} ops) :
     behind them — lies inside the fragment -/
 example : fragRunDL {} exampleTieHistory := by
   refine ⟨trivial, trivial, trivial, trivial, by decide, by decide, by decide, by decide, trivial, by decide, by decide, by decide, trivial⟩
+
+/-- … continued: the first of the two forwarded deliveries is acknowledged and a round of the job that
+    deletes acknowledged deliveries removes it (together with the two retired source rows): a tie-closed
+    round, inside the fragment -/
+example : fragRunDL {} (exampleTieHistory ++ [.ack [21], .advance 5, .pruneCompletedDeliveries 0 10 [11, 13, 21]]) := by
+  refine ⟨trivial, trivial, trivial, trivial, by decide, by decide, by decide, by decide, trivial, by decide, by decide,
+    by decide, by decide, by decide, by decide, trivial⟩
+example : ((outs {} (exampleTieHistory ++ [.ack [21], .advance 5, .pruneCompletedDeliveries 0 10 [11, 13, 21]])).map (·.ok)).getLast? = some true := by
+  decide
+/-- a round that took the *second* forwarded delivery and left the first would not be tie-closed -/
+example : Ord2.tieClosed (Mmmbbb.run {} exampleTieHistory).db [22] = false := by decide
 
 end fragment_dl
 
